@@ -16,6 +16,7 @@ structure St where
   sfresh : Bool := false          -- stream input opened, no request handled yet
   sro : Bool := false             -- stream input is read-only
   cfresh : Bool := false          -- connection opened, nothing sent or handled yet
+  cdgram : Bool := false          -- the connection is a datagram socket
   -- stream-backed connection: id width when open, lazily created reply context, handle tokens in use,
   -- spec: unanswered requests moved to handles, transport reachable
   cw : Option Nat := none
@@ -249,9 +250,12 @@ def conAnswer (st : St) (idlen : Nat) (data : List Byte) : St × String :=
     match Requester.findActive (st.cwait.getD []) v with
     | some t =>
       ({ st with cwait := st.cwait.map (Requester.deactivate · v), cpend := cpend' },
-       s!"R {r0} | C hr{t}({toHex payload}) | I next=1 disp=0 | S {r0} ; {sC}")
+       s!"R {r0} | C hr{t}({toHex payload}) | I next=1 disp={if t ≥ 900000 then 131072 else 0} | S {r0} ; {sC}")
     | none => ({ st with cpend := cpend' }, s!"R {r0} | C - | I next=1 disp=131072 | S {r0} ; {sC}")
   | _ => ({ st with cpend := cpend' }, s!"R {r0} | C - | I next=1 disp=131072 | S {r0} ; {sC}")
+
+/-- harness convention: reply commands registered with a tag from 900000 on report failure (return -1) -/
+def failingTag (t : Nat) : Bool := t ≥ 900000
 
 def stepC0 (st : St) (w : List String) : St × String :=
   match w with
@@ -259,7 +263,15 @@ def stepC0 (st : St) (w : List String) : St × String :=
     match n.toNat? with
     | some idlen =>
       if idlen > 255 then (st, "bad-op") else
-      ({ st with sin := none, cw := some idlen, cc := none, clive := [], cheld := [], cwait := none, ccid := 0, cpend := [] },
+      ({ st with sin := none, cw := some idlen, cdgram := false, cc := none, clive := [], cheld := [], cwait := none, ccid := 0, cpend := [] },
+       "R ok | C - | I ret=0 | S ok ; -")
+    | none => (st, "bad-op")
+  | ["c", "open", n, "dgram"] =>
+    -- the connection is a datagram socket: every datagram is one message, replies are datagrams (same scheme)
+    match n.toNat? with
+    | some idlen =>
+      if idlen > 255 then (st, "bad-op") else
+      ({ st with sin := none, cw := some idlen, cdgram := true, cc := none, clive := [], cheld := [], cwait := none, ccid := 0, cpend := [] },
        "R ok | C - | I ret=0 | S ok ; -")
     | none => (st, "bad-op")
   | ["c", "req", h, "discard"] =>
@@ -270,7 +282,9 @@ def stepC0 (st : St) (w : List String) : St × String :=
       let id := data.take idlen
       let r0 := "called=0 ctx=0 id=0 acts=-"
       if idlen ≠ 0 ∧ data.length < idlen then (st, s!"R {r0} | C - | I next=1 disp=131072 | S {r0} ; -")
-      else if idlen ≠ 0 ∧ (id.headD 0).toNat ≥ 128 then conAnswer st idlen data
+      else if idlen ≠ 0 ∧ (id.headD 0).toNat ≥ 128 then
+        -- datagram connection without handler: a reply is dropped like everything else (nobody waits on it here)
+        if st.cdgram then (st, s!"R {r0} | C - | I next=1 disp=0 | S {r0} ; -") else conAnswer st idlen data
       else if idlen ≠ 0 ∧ id.any (· ≠ 0) then
         match (st.cc <|> Reply.create idlen true) with
         | none => (st, "bad-op")
@@ -332,6 +346,7 @@ def stepC0 (st : St) (w : List String) : St × String :=
        s!"R {if ret < 0 then "refused" else "ok"} | C {fmtFrames frames} | I ret={errName ret} | S {fmtA}")
     | _, _, _ => (st, "bad-op")
   | ["c", "await", t] =>
+    if st.cdgram ∧ st.cw.isSome then (st, "bad-op") else
     match st.cw, t.toNat? with
     | some idlen, some tag =>
       if tag > 1000000 then (st, "bad-op") else
@@ -345,6 +360,7 @@ def stepC0 (st : St) (w : List String) : St × String :=
       | none => (st, s!"R refused | C - | I ret=BadValue | S {if idlen = 0 then "refused ; -" else "ok id=<fresh> ; -"}")
     | _, _ => (st, "bad-op")
   | ["c", "send", h] =>
+    if st.cdgram ∧ st.cw.isSome then (st, "bad-op") else
     match st.cw, parseHex h with
     | some idlen, some data =>
       if data.length > 1000 then (st, "bad-op") else
@@ -463,8 +479,13 @@ def stepX (st : St) (w : List String) : St × String :=
       | "sync", [f] =>
         match parseFrames x.idlen f with
         | some fs =>
-          let (x', calls) := Requester.sync { x with inq := x.inq ++ fs }
-          let (sp', scalls) := ReplySpec.awaitReplies (sp.inq.length + fs.length + 1) (sp.inq ++ fs) sp []
+          -- the harness calls sync until nothing moves any more (a command that reports failure ends one call)
+          let n := x.inq.length + fs.length + 2
+          let (x', calls) := (List.range n).foldl (fun (acc : Requester.St × List Requester.Call) _ =>
+            let r := Requester.sync failingTag acc.1
+            (r.1, acc.2 ++ r.2)) ({ x with inq := x.inq ++ fs }, [])
+          let (sp', scalls) := (List.range n).foldl (fun (acc : ReplySpec.ReqSt × List (Option Nat × List Byte)) _ =>
+            ReplySpec.awaitReplies failingTag (acc.1.inq.length + 1) acc.1.inq acc.1 acc.2) ({ sp with inq := sp.inq ++ fs }, [])
           ({ st with xr := some x', xs := sp' },
            s!"R ok | C {fmtCallsX calls} | I ret=0 rounds=0 waiting={waitingOf x'} | S ok ; {fmtCallsS scalls}")
         | none => (st, "bad-op")
